@@ -51,12 +51,10 @@ fn c03_phrase_exists_count_slop() {
 }
 
 /// in-place intersection keeps exactly the common positions, in order
-#[kani::proof]
-#[kani::unwind(8)]
-fn c03_phrase_intersection_inplace() {
+fn inplace(maxlen: usize) {
     let ll: usize = kani::any();
     let rl: usize = kani::any();
-    kani::assume(ll <= 3 && rl <= 3);
+    kani::assume(ll <= maxlen && rl <= maxlen);
     let l = sorted3(ll);
     let r = sorted3(rl);
     let mut left: Vec<u32> = Vec::with_capacity(3);
@@ -92,14 +90,24 @@ fn c03_phrase_intersection_inplace() {
     std::mem::forget(left);
 }
 
-/// slop 0 degenerates to the exact intersection count; with slop the count never exceeds
-/// min(|l|,|r|) and is > 0 exactly when some pair is within the slop.
 #[kani::proof]
 #[kani::unwind(8)]
-fn c03_phrase_count_with_slop() {
+fn c03_phrase_intersection_inplace_len2() {
+    inplace(2);
+}
+
+#[kani::proof]
+#[kani::unwind(8)]
+fn c03_phrase_intersection_inplace_len3() {
+    inplace(3);
+}
+
+/// slop 0 degenerates to the exact intersection count; with slop the count never exceeds
+/// min(|l|,|r|) and is > 0 exactly when some pair is within the slop.
+fn count_slop(maxlen: usize) {
     let ll: usize = kani::any();
     let rl: usize = kani::any();
-    kani::assume(ll <= 3 && rl <= 3);
+    kani::assume(ll <= maxlen && rl <= maxlen);
     let l = sorted3(ll);
     let r = sorted3(rl);
     let slop: u32 = kani::any();
@@ -120,4 +128,16 @@ fn c03_phrase_count_with_slop() {
     }
     kani::cover!(cnt == 2 && slop > 0);
     std::mem::forget(left);
+}
+
+#[kani::proof]
+#[kani::unwind(8)]
+fn c03_phrase_count_with_slop_len2() {
+    count_slop(2);
+}
+
+#[kani::proof]
+#[kani::unwind(8)]
+fn c03_phrase_count_with_slop_len3() {
+    count_slop(3);
 }
